@@ -8,6 +8,7 @@ JSON on stdin: {"phase": "A" | "B" | "I", ...}; one JSON document on the last st
           sequences of real fix_deprecated calls (or the real CLI command), a snapshot of jobs/ after
           each, then re-submits of the graphs written with the replacement classes.
  phase I: identifiers of graphs with deprecated classes vs. the same graphs with their replacements.
+ phase C: the class table of this process (type identifier and declared arguments of every class of vpk_c20).
 """
 import hashlib
 import json
@@ -20,14 +21,16 @@ from pathlib import Path
 
 logging.disable(logging.CRITICAL)
 
-from experimaestro import experiment  # noqa: E402
+from experimaestro import Config, experiment, setmeta  # noqa: E402
 from experimaestro.scheduler.workspace import RunMode  # noqa: E402
 from vpk_c20 import defs  # noqa: E402
 
 
 # ------------------------------------------------------------------ graphs
 def build(spec, subst=False, labels=None, nodes=None):
-    """spec: int | str | None | list | {"dict": {...}} | {"c": cls, "a": {...}, "label"?: l} | {"ref": l}"""
+    """spec: int | str | None | list | {"dict": {...}} | {"c": cls, "a": {...}, "label"?: l, "meta"?: bool} | {"ref": l}
+    "meta": the configuration is flagged with setmeta(config, flag) - True: ignored wherever it is a member,
+    False: counted in the identifier even when given through a Meta[...] parameter"""
     labels = {} if labels is None else labels
     if isinstance(spec, list):
         return [build(s, subst, labels, nodes) for s in spec]
@@ -42,6 +45,8 @@ def build(spec, subst=False, labels=None, nodes=None):
         # children first: same order for the old and the new graph
         kw = {k: build(v, subst, labels, nodes) for k, v in spec["a"].items()}
         obj = defs.CLASSES[name](**kw)
+        if spec.get("meta") is not None:
+            setmeta(obj, spec["meta"])
         if nodes is not None:
             nodes.append(obj)
         if "label" in spec:
@@ -58,6 +63,92 @@ def typeid(obj):
     return str(obj.__xpmtype__.identifier)
 
 
+# ------------------------------------------------------------------ reflection (what the model of the loader is given)
+def ev(v, ref):
+    if v is None:
+        return {"t": "none"}
+    if isinstance(v, bool):
+        return {"t": "bool", "v": v}
+    if isinstance(v, int):
+        return {"t": "int", "v": v}
+    if isinstance(v, str):
+        return {"t": "str", "b": list(v.encode("utf-8"))}
+    if isinstance(v, list):
+        return {"t": "list", "v": [ev(x, ref) for x in v]}
+    if isinstance(v, dict):
+        return {"t": "dict", "v": [[list(k.encode("utf-8")), ev(x, ref)] for k, x in v.items()]}
+    if isinstance(v, Config):
+        return {"t": "ref", "n": ref(v)}
+    return {"t": "unknown", "py": type(v).__name__}
+
+
+def export_graph(root):
+    """the graph as the real objects hold it: nodes in discovery order (root = 0), classes by python name"""
+    objs, index = [root], {id(root): 0}
+
+    def ref(o):
+        if id(o) not in index:
+            index[id(o)] = len(objs)
+            objs.append(o)
+        return index[id(o)]
+
+    nodes, i = [], 0
+    while i < len(objs):
+        o = objs[i]
+        x = o.__xpm__
+        nodes.append(dict(py=o.__xpmtype__.basetype.__qualname__,
+                          fields=[[list(k.encode("utf-8")), ev(v, ref)] for k, v in x.values.items()],
+                          meta=x._meta, task=None if x.task is None else ref(x.task),
+                          pre=[ref(p) for p in x.pre_tasks], init=[ref(p) for p in x.init_tasks]))
+        i += 1
+    return nodes, objs
+
+
+def canon_defs(objects, objs):
+    """the definitions of a params.json over the indices of the exported graph"""
+    idx = {id(o): i for i, o in enumerate(objs)}
+
+    def cv(v):
+        if isinstance(v, list):
+            return {"t": "list", "v": [cv(x) for x in v]}
+        if isinstance(v, dict):
+            if "type" not in v:
+                return {"t": "dict", "v": [[list(k.encode("utf-8")), cv(x)] for k, x in v.items()]}
+            if v["type"] == "python":
+                return {"t": "ref", "n": idx.get(v["value"], -1)}
+            return {"t": "unknown", "py": v["type"]}
+        if v is None:
+            return {"t": "none"}
+        if isinstance(v, bool):
+            return {"t": "bool", "v": v}
+        if isinstance(v, int):
+            return {"t": "int", "v": v}
+        if isinstance(v, str):
+            return {"t": "str", "b": list(v.encode("utf-8"))}
+        return {"t": "unknown", "py": type(v).__name__}
+
+    return [dict(id=idx.get(d["id"], -1), py=d["type"], module=d["module"],
+                 fields=[[list(k.encode("utf-8")), cv(v)] for k, v in d["fields"].items()],
+                 pre=[idx.get(p, -1) for p in d.get("pre-tasks", [])],
+                 init=[idx.get(p, -1) for p in d.get("init-tasks", [])],
+                 meta=d.get("meta", None), task=(idx.get(d["task"], -1) if "task" in d else None))
+            for d in objects]
+
+
+def classes_now():
+    """the classes as they are in this process (with VPK_C20_DEPRECATED=1 a deprecated class carries the type
+    identifier of its replacement): type identifier and declared arguments, by python name"""
+    out = []
+    for name, cls in defs.CLASSES.items():
+        xt = cls.__getxpmtype__()
+        out.append(dict(py=name, tid=list(xt.identifier.name.encode("utf-8")),
+                        args=[dict(name=list(a.name.encode("utf-8")), ignored=bool(a.ignored),
+                                   gen=a.generator is not None, const=bool(a.constant), required=bool(a.required),
+                                   default=None if a.default is None else ev(a.default, lambda o: -1))
+                              for a in xt.arguments.values()]))
+    return out
+
+
 # ------------------------------------------------------------------ phase A
 def set_launcher_env(xp):
     xp.workspace.launcher.setenv("PYTHONPATH", os.environ["PYTHONPATH"])
@@ -70,11 +161,12 @@ def phase_a(payload):
     out = []
     for case in payload["cases"]:
         wd = root / case["name"]
-        jobs = []
+        jobs, objs = [], []
         with experiment(wd, "gen", port=-1) as xp:
             set_launcher_env(xp)
             for j in case["jobs"]:
                 obj = build(j["spec"])
+                objs.append(obj)
                 mode = RunMode.NORMAL if j["mode"] == "run" else RunMode.GENERATE_ONLY
                 obj.submit(run_mode=mode)
                 job = obj.__xpm__.job
@@ -85,13 +177,19 @@ def phase_a(payload):
                     job.pidpath.unlink(missing_ok=True)
                 jobs.append(job)
         res = []
-        for ix, (j, job) in enumerate(zip(case["jobs"], jobs)):
+        for ix, (j, job, obj) in enumerate(zip(case["jobs"], jobs, objs)):
             path = job.path
             (path / "payload.txt").write_text(f"{case['name']}:job{ix}")
             if j["mode"] == "gen" and j["done"]:
                 job.donepath.write_text("")
-            res.append(dict(type=path.parent.name, id=path.name, name=job.name,
-                            done=job.donepath.exists(), has_params=(path / "params.json").is_file()))
+            r = dict(type=path.parent.name, id=path.name, name=job.name,
+                     done=job.donepath.exists(), has_params=(path / "params.json").is_file())
+            # the submitted graph as the objects hold it, and what was written to params.json (over the same indices)
+            if r["has_params"]:
+                nodes, allobjs = export_graph(obj)
+                r["graph"] = nodes
+                r["defs"] = canon_defs(json.loads((path / "params.json").read_text())["objects"], allobjs)
+            res.append(r)
         out.append(res)
     return out
 
@@ -242,6 +340,21 @@ def do_fix(wd, op):
     return dict(op=op, fix=fix, cleanup=cleanup, loops=tap.loops, error=err)
 
 
+def recompute(params_path):
+    from experimaestro.tools.jobs import load_job
+    if params_path.parent.is_symlink() or not params_path.is_file():
+        return dict(state="absent")
+    try:
+        params, job = load_job(params_path)
+    except Exception as e:  # noqa
+        return dict(state="raised", error=repr(e)[:200])
+    finally:
+        logging.disable(logging.CRITICAL)
+    if job is None:
+        return dict(state="failed")
+    return dict(state="ok", type=str(job.__xpmtype__.identifier), id=job.__xpm__.identifier.all.hex())
+
+
 def phase_b(payload):
     assert defs.DEPRECATED
     root = Path(payload["root"])
@@ -259,6 +372,8 @@ def phase_b(payload):
         for m in case["manual"]:
             manual(wd, m, old, new, mlog)
         res = dict(new=new, manual_applied=mlog, before=snapshot(wd), ops=[])
+        # what the repair command recomputes from each params.json (its own loader, the classes as they are now)
+        res["recomputed"] = [recompute(jobs / o["type"] / o["id"] / "params.json") for o in old]
         for op in case["ops"]:
             r = do_fix(wd, op)
             r["after"] = snapshot(wd)
@@ -313,7 +428,7 @@ def phase_i(payload):
 
 def main():
     payload = json.load(sys.stdin)
-    res = dict(A=phase_a, B=phase_b, I=phase_i)[payload["phase"]](payload)
+    res = dict(A=phase_a, B=phase_b, I=phase_i, C=lambda p: classes_now())[payload["phase"]](payload)
     sys.stdout.flush()
     print()
     print(json.dumps(res))
